@@ -18,33 +18,42 @@ from reactivex.disposable import CompositeDisposable
 from reactivex.subject import AsyncSubject, BehaviorSubject, ReplaySubject, Subject
 
 from vlib.core import FAIL, OK, SKIP, Check, HarnessError
-from vlib.lab import Lab, timelines
+from vlib.lab import Lab, Probe, timelines
 from vlib.values import canon, val
 
 PROPERTY_ID = "C24"
 LEVEL = "exploration"
 RULE = (
     "Generated histories (2..16 commands quick, ..22 thorough; indices resolved modulo the objects created so far) of "
-    "sub / unsub(i) / conn / disc(i) / adv(dt>=1) over one multicast observable built on a logged cold, synchronous-cold "
+    "sub[plain | take(k): completes and unsubscribes inside its k-th on_next | kill(k, j): unsubscribes subscriber j, possibly itself, "
+    "from inside its k-th on_next] / unsub(i) / conn / disc(i) / adv(dt>=1) over one multicast observable built on a logged cold, synchronous-cold "
     "or hot virtual-time source (<=5 values, gaps 0..3, ending in C / E / nothing) on a TestScheduler or a HistoricalScheduler (datetime clock). Forms: check `connectable` = "
     "publish(), replay(buffer 0..3|None, window 1..5|None, scheduler=lab), publish_value(v), multicast(Subject | "
     "BehaviorSubject | ReplaySubject | AsyncSubject) driven by explicit connect()/dispose of ANY previously returned "
     "connection (stale ones included); check `refcount` = share() and ref_count() on each of those connectables; check "
     "`autoconnect` = auto_connect(0..3) on each; check `mapper` = publish(mapper), replay(mapper=), publish_value(v, "
     "mapper), multicast(subject_factory=, mapper=) with mapper in {identity, use-the-connectable-twice}; check `enum` = "
-    "ALL histories of length <= 5 (thorough; quick: <= 3, and 4 over the cold source) over a fixed alphabet for 7 forms x 3 sources. Oracle = "
+    "ALL histories of length <= 5 (thorough; quick: <= 3, and 4 over the cold source) over a fixed alphabet for 7 forms x 3 sources; "
+    "check `enum_reentrant` = ALL histories of length <= 5 (thorough; quick <= 3, and 4 for publish/share over the cold source) with >= 2 "
+    "subscribers, one of them take(1)/kill, for 6 forms x 2 sources. Oracle = "
     "independent model: one source subscription per effective connect, open from the connect tick to the tick of the "
     "disconnect or of the source's terminal; connect while connected is a no-op whose returned handle disconnects the "
     "same connection; ref_count/share connect at count 0->1 and disconnect at ->0; auto_connect(n) connects at the "
     "n-th subscriber (n=0 at creation) and never disconnects; mapper forms own one source subscription per subscriber "
     "however often the mapper uses the connectable; each subscriber's [tick, kind, value] trace = what the subject "
     "model (plain / current value / replay buffer+window / last value) delivers from its subscription until its "
-    "unsubscription. Non-trivial: >=2 subscribe commands and (>=2 source subscriptions of the one connectable, i.e. a "
-    "reconnect after a disconnect, or a subscribe and an effective unsubscribe at the same virtual instant). "
+    "unsubscription; one notification is delivered to the snapshot of the subscribers at the start of the delivery, skipping "
+    "those unsubscribed earlier during the same delivery (every other subscriber must still get it); a take(k) subscriber gets "
+    "exactly k elements then completion and leaves the subject / decrements the ref-count at that instant. "
+    "Non-trivial: >=2 subscribe commands and (>=2 source subscriptions of the one connectable, i.e. a "
+    "reconnect after a disconnect, or a subscribe and an effective unsubscribe at the same virtual instant, or an unsubscription "
+    "from inside a delivery while a later subscriber of the snapshot stays subscribed). "
     "Distinct = distinct case JSON."
 )
 ASSUMPTIONS = [
-    "subscribers are passive probes (no subscribe/unsubscribe from inside callbacks; that is C03/C20-C23's business); source timelines conform to the grammar",
+    "subscribers never subscribe from inside callbacks and never raise (C02/C03/C20-C23's business); they may unsubscribe themselves (take(k), kill) or another "
+    "subscriber (kill) from inside on_next; source timelines conform to the grammar",
+    "unsubscribing a subscriber whose subscribe() call has not returned yet (possible only from inside a synchronous emission) takes effect when that call returns",
     "after the source terminated the connection still counts as connected until it is disposed (what connect() does here and in Rx.NET); "
     "a model variant that resets the flag at termination (RxJS) is accepted as well and counted in class alt_only",
     "auto_connect(n): the library counts *concurrent* subscribers (the counter is decremented on unsubscribe); the docstring reading "
@@ -209,6 +218,7 @@ class _Subj:
         self.stopped = False
         self.term = None
         self.stats = set()
+        self.nremoved = 0
 
     def _retained(self):
         items = self.queue
@@ -254,6 +264,7 @@ class _Subj:
     def unsubscribe(self, tok):
         if tok is not None and tok in self.observers:
             self.observers.remove(tok)
+            self.nremoved += 1
 
     def on_event(self, k, p):
         if self.stopped:
@@ -267,9 +278,14 @@ class _Subj:
                 self.value = p
             if self.kind == "replay":
                 self.queue.append((self.ms.now, p))
+            # delivery rule: snapshot of the subscribers at the start of the delivery; a subscriber unsubscribed
+            # earlier during the same delivery is skipped (its endpoint is stopped), everybody else gets the element
             obs = list(self.observers)
-            for o in obs:
+            for i, o in enumerate(obs):
+                before = self.nremoved
                 o.put("N", p)
+                if self.nremoved != before and any(x in self.observers for x in obs[i + 1:]):
+                    self.stats.add("unsub_in_delivery_before_later_subscriber")
         else:
             self.stopped = True
             self.term = (k, p)
@@ -344,17 +360,33 @@ class _EP:
         self.sos = []
         self.lenient = None
         self.sub_instant = None
+        self.take = None  # k: completes (and unsubscribes) synchronously inside its k-th on_next
+        self.kill = None  # (k, j, model): unsubscribes subscriber j from inside its k-th on_next
+        self.nn = 0
+        self.pending_user_dispose = False
 
     def emit(self, k, p):
         if self.stopped:
             return
         self.trace.append([self.ms.now, k, p])
         if k != "N":
-            self.stopped = True
-            if self.in_subscribe:
-                self.pending_detach = True
-            else:
-                self.dispose()
+            self._terminated()
+            return
+        self.nn += 1
+        if self.take is not None and self.nn == self.take:
+            self.trace.append([self.ms.now, "C", None])
+            self._terminated()
+        if self.kill is not None and self.nn == self.kill[0]:
+            model = self.kill[2]
+            model.stats.add("kill_fired")
+            model.unsub(self.kill[1] % len(model.eps))
+
+    def _terminated(self):
+        self.stopped = True
+        if self.in_subscribe:
+            self.pending_detach = True
+        else:
+            self.dispose()
 
     def dispose(self):
         if not self.disposed:
@@ -374,8 +406,9 @@ class _RC:
         conn = self.conn
         self.count += 1
         was_stopped = conn.subj.stopped
+        should_connect = self.count == 1  # decided by the arrival itself, not by what its first delivery triggers
         tok = conn.subj.subscribe(ep.emit, ep)
-        if self.count == 1:
+        if should_connect:
             self.handle = conn.connect(optional=was_stopped)
 
         def dispose():
@@ -401,8 +434,9 @@ class _AC:
         conn = self.conn
         self.count += 1
         self.arrivals += 1
+        should_connect = (self.arrivals if self.cumulative else self.count) == self.n  # decided by the arrival itself
         tok = conn.subj.subscribe(ep.emit, ep)
-        if (self.arrivals if self.cumulative else self.count) == self.n:
+        if should_connect:
             conn.connect()  # no-op once connected: the connection is never disposed
 
         def dispose():
@@ -444,9 +478,13 @@ class _Model:
                 self.w = _AC(self.conn, form["n"], cumulative=alt)
 
     # commands ------------------------------------------------------------------------
-    def sub(self):
+    def sub(self, cmd=("sub",)):
         ep = _EP(self.ms)
         ep.sub_instant = self.instant
+        if len(cmd) > 1 and cmd[1] == "take":
+            ep.take = cmd[2]
+        elif len(cmd) > 1 and cmd[1] == "kill":
+            ep.kill = (cmd[2], cmd[3], self)
         self.eps.append(ep)
         ep.in_subscribe = True
         if self.mapper:
@@ -460,6 +498,8 @@ class _Model:
         ep.in_subscribe = False
         if ep.pending_detach:
             ep.dispose()
+        if ep.pending_user_dispose:
+            self.unsub(len(self.eps) - 1 if self.eps[-1] is ep else self.eps.index(ep))
 
     def _sub_mapper(self, ep):
         subj = _mk_subj(self.ms, self.form)
@@ -490,6 +530,11 @@ class _Model:
 
     def unsub(self, k):
         ep = self.eps[k]
+        if ep.in_subscribe:
+            # its disposable does not exist yet (the probe disposes as soon as subscribe() returned)
+            ep.pending_user_dispose = True
+            self.stats.add("unsub_during_own_subscribe")
+            return
         if ep.user_disposed:
             self.stats.add("unsub_twice")
             return
@@ -573,6 +618,24 @@ def _real_subject(lab, form):
     raise HarnessError(kind)
 
 
+class _KillProbe(Probe):
+    """A probe that unsubscribes subscriber j (possibly itself) from inside its k-th on_next."""
+
+    def __init__(self, lab, name, real, k, j):
+        super().__init__(lab, name)
+        self._real = real
+        self._k = k
+        self._j = j
+        self._nn = 0
+
+    def _rec(self, kind, payload):
+        super()._rec(kind, payload)
+        if kind == "N":
+            self._nn += 1
+            if self._nn == self._k:
+                self._real.unsub(self._j % len(self._real.probes))
+
+
 class _Real:
     def __init__(self, case):
         form = case["form"]
@@ -615,10 +678,18 @@ class _Real:
         self.probes = []
         self.handles = []
 
-    def sub(self):
-        p = self.lab.probe(f"s{len(self.probes)}")
+    def sub(self, cmd=("sub",)):
+        name = f"s{len(self.probes)}"
+        o = self.o
+        if len(cmd) > 1 and cmd[1] == "kill":
+            p = _KillProbe(self.lab, name, self, cmd[2], cmd[3])
+            self.lab.probes.append(p)
+        else:
+            p = self.lab.probe(name)
+            if len(cmd) > 1 and cmd[1] == "take":
+                o = o.pipe(ops.take(cmd[2]))
         self.probes.append(p)
-        p.subscribe(self.o)
+        p.subscribe(o)
 
     def unsub(self, k):
         self.probes[k].dispose()
@@ -745,7 +816,7 @@ def _run(case):
         if op == "sub":
             nsub += 1
             for x in targets:
-                x.sub()
+                x.sub(cmd)
         elif op == "unsub":
             if nsub:
                 for x in targets:
@@ -827,7 +898,7 @@ def _run(case):
         classes.append("multi_receivers")
     if m0.conn is not None and len({_conn_of(log, e[0]) for ep in m0.eps for e in ep.trace if e[1] == "N"} - {None}) >= 2:
         classes.append("deliveries_on_2_connections")
-    nontrivial = nsub >= 2 and (reconnect or "same_instant" in stats)
+    nontrivial = nsub >= 2 and (reconnect or "same_instant" in stats or "unsub_in_delivery_before_later_subscriber" in stats)
     return OK(nontrivial, classes)
 
 
@@ -878,6 +949,16 @@ def _cmd(group, adv=True):
             return st.integers(0, 7).map(lambda i: ["unsub", i])
         if k == "disc":
             return st.integers(0, 5).map(lambda i: ["disc", i])
+        if k == "sub":
+            return st.sampled_from(["plain"] * 4 + ["take"] * 2 + ["kill"] * 2).flatmap(
+                lambda kind: st.just(["sub"])
+                if kind == "plain"
+                else (
+                    st.integers(1, 3).map(lambda n: ["sub", "take", n])
+                    if kind == "take"
+                    else st.tuples(st.integers(1, 3), st.integers(0, 5)).map(lambda t: ["sub", "kill", t[0], t[1]])
+                )
+            )
         return st.just([k])
 
     return st.sampled_from(kinds).flatmap(mk)
@@ -950,6 +1031,38 @@ def _enum(tier):
                     yield {"form": form, "src": src, "cmds": [list(c) for c in cmds]}
 
 
+_ENUM_R_FORMS = [
+    {"base": "publish"},
+    {"base": "share"},
+    {"base": "publish_value", "init": "i0", "wrap": "ref_count"},
+    {"base": "replay", "buf": None, "win": None, "wrap": "ref_count"},
+    {"base": "publish", "wrap": "auto_connect", "n": 2},
+    {"base": "mc_async", "wrap": "ref_count"},
+]
+_ENUM_R_SRCS = [
+    {"kind": "cold", "tl": [[0, "N", "i1"], [1, "N", "i2"], [2, "C", None]]},
+    {"kind": "sync", "tl": [[0, "N", "i1"], [0, "N", "i2"], [1, "E", "e1"]]},
+]
+
+
+def _enum_reentrant(tier):
+    """All short histories over subscriber kinds that unsubscribe from inside on_next."""
+    L = 4 if tier == "quick" else 5
+    for fi, form in enumerate(_ENUM_R_FORMS):
+        plain = not form.get("wrap") and form["base"] != "share"
+        alpha = [["sub"], ["sub", "take", 1], ["sub", "kill", 1, 1], ["sub", "kill", 2, 0], ["unsub", 0], ["adv", 1]]
+        if plain:
+            alpha += [["conn"]]
+        for src in _ENUM_R_SRCS:
+            for n in range(1, L + 1):
+                if tier == "quick" and n == L and (src["kind"] != "cold" or fi > 1):
+                    continue  # quick: the longest length only for publish/share over the cold source
+                for cmds in itertools.product(alpha, repeat=n):
+                    if cmds[-1][0] == "adv" or sum(1 for c in cmds if c[0] == "sub") < 2 or all(len(c) == 1 for c in cmds if c[0] == "sub"):
+                        continue  # needs >= 2 subscribers, one of them re-entrant
+                    yield {"form": form, "src": src, "cmds": [list(c) for c in cmds]}
+
+
 def checks(tier):
     def gen(group, quick, thorough):
         return Check(
@@ -966,4 +1079,5 @@ def checks(tier):
         gen("autoconnect", 1600, 16 * 6000),
         gen("mapper", 1600, 16 * 6000),
         Check("enum", _run, cases=_enum, shards={"quick": 8, "thorough": 16}, exhaustive=True),
+        Check("enum_reentrant", _run, cases=_enum_reentrant, shards={"quick": 4, "thorough": 16}, exhaustive=True),
     ]
